@@ -1,15 +1,222 @@
-//! Engine `pool` — not built yet (stub).
+//! Engine `pool` (C16): job sequences through the task runner a real `Database` executes its statements on,
+//! against the Lean worker-pool model (`Model/Pool.lean`).
+//!
+//! Case:    `seq <size> | op ; op ; …`
+//!   op  =  `ok` | `err` | `panic`            one blocking call (`SharedTaskRunner::run_with_result`, the call
+//!                                            `Database::execute` makes), waited for before the next op
+//!       |  `burst:<k>,<k>,…`                 all jobs submitted first (`SharedTaskRunner::spawn`, FIFO), then waited for
+//! Output:  one word per job in submission order — `answered-ok`, `answered-err`, `answered-panic-as-error`, `lost`
+//!          (`timed-out` / `rejected` never appear in the model) — then `| live=<workers still alive>`.
 use super::{Case, Engine, Tier};
 use crate::rng::Rng;
+use axmosdb::verif::pool::{Answer, JobKind, Pool};
+use axmosdb::{DBConfig, Database};
+use std::sync::atomic::{AtomicU64, Ordering};
+use std::time::Duration;
 
 pub struct PoolEngine;
 
-impl Engine for PoolEngine {
-    fn gen_cases(&self, _rng: &mut Rng, _tier: Tier) -> Vec<Case> {
-        Vec::new()
+static COUNTER: AtomicU64 = AtomicU64::new(0);
+
+pub const MAX_SIZE: usize = 16;
+pub const MAX_JOBS: usize = 400;
+
+fn kind(s: &str) -> Option<JobKind> {
+    match s {
+        "ok" => Some(JobKind::Ok),
+        "err" => Some(JobKind::Err),
+        "panic" => Some(JobKind::Panic),
+        _ => None,
     }
-    fn exec(&mut self, _line: &str) -> String {
-        "unimplemented".into()
+}
+
+#[derive(Debug)]
+pub enum Op {
+    Call(JobKind),
+    Burst(Vec<JobKind>),
+}
+
+/// `seq <size> | op ; op ; …` → (size, ops); `None` = malformed (`bad-op` on both sides).
+pub fn parse(line: &str) -> Option<(usize, Vec<Op>)> {
+    let (head, body) = line.split_once('|')?;
+    let hs: Vec<&str> = head.split_whitespace().collect();
+    let size = match hs.as_slice() {
+        ["seq", n] => n.parse::<usize>().ok()?,
+        _ => return None,
+    };
+    if size == 0 || size > MAX_SIZE {
+        return None;
+    }
+    let mut ops = Vec::new();
+    let mut jobs = 0;
+    for o in body.split(';') {
+        let o = o.trim();
+        if let Some(ks) = o.strip_prefix("burst:") {
+            let ks: Option<Vec<JobKind>> = ks.split(',').map(kind).collect();
+            let ks = ks?;
+            jobs += ks.len();
+            ops.push(Op::Burst(ks));
+        } else {
+            ops.push(Op::Call(kind(o)?));
+            jobs += 1;
+        }
+    }
+    if jobs > MAX_JOBS {
+        return None;
+    }
+    Some((size, ops))
+}
+
+fn word(a: Answer) -> &'static str {
+    match a {
+        Answer::Ok => "answered-ok",
+        Answer::Err => "answered-err",
+        Answer::PanicAsError => "answered-panic-as-error",
+        Answer::Lost => "lost",
+        Answer::TimedOut => "timed-out",
+        Answer::Rejected => "rejected",
+    }
+}
+
+pub fn scratch_dir(tag: &str) -> std::path::PathBuf {
+    let n = COUNTER.fetch_add(1, Ordering::Relaxed);
+    let d = std::env::temp_dir().join(format!("axh-c16-{}-{}-{}", tag, std::process::id(), n));
+    let _ = std::fs::remove_dir_all(&d);
+    std::fs::create_dir_all(&d).expect("scratch dir");
+    d
+}
+
+impl Engine for PoolEngine {
+    fn exec(&mut self, line: &str) -> String {
+        let Some((size, ops)) = parse(line) else { return "bad-op".into() };
+        let dir = scratch_dir("pool");
+        let cfg = DBConfig { pool_size: size, ..DBConfig::default() };
+        let out = {
+            let db = match Database::create(dir.join("p.db"), cfg) {
+                Ok(db) => db,
+                Err(_) => {
+                    let _ = std::fs::remove_dir_all(&dir);
+                    return "PROPFAIL cannot-create-database".into();
+                }
+            };
+            let pool = Pool::of_database(&db);
+            let grace = Duration::from_millis(20);
+            let max_wait = Duration::from_secs(8);
+            let mut words: Vec<&'static str> = Vec::new();
+            for op in &ops {
+                match op {
+                    Op::Call(k) => {
+                        let t = pool.submit_blocking_call(*k);
+                        words.push(word(pool.wait(t, grace, max_wait)));
+                    }
+                    Op::Burst(ks) => {
+                        let ts: Vec<_> = ks.iter().map(|k| pool.submit(*k)).collect();
+                        for t in ts {
+                            words.push(word(pool.wait(t, grace, max_wait)));
+                        }
+                    }
+                }
+            }
+            let live = pool.settled_live_workers(Duration::from_millis(40), Duration::from_secs(2));
+            format!("{} | live={} ## size={} queued={}", words.join(" "), live, pool.size(), pool.queued())
+        };
+        let _ = std::fs::remove_dir_all(&dir);
+        out
+    }
+
+    fn gen_cases(&self, rng: &mut Rng, tier: Tier) -> Vec<Case> {
+        let n = if tier == Tier::Quick { 360 } else { 3600 };
+        let mut cases = Vec::new();
+        let k3 = ["ok", "err", "panic"];
+        let k2 = ["ok", "err"];
+        for i in 0..n {
+            let size = match rng.below(10) {
+                0..=2 => 1,
+                3..=5 => 2,
+                6..=7 => 3,
+                8 => 4,
+                _ => 5 + rng.below(4) as usize,
+            };
+            // 72 % of the cases have no panicking job (no known-finding feature)
+            let clean = i % 25 < 18;
+            let mut tags: Vec<String> = vec![format!("size{}", size.min(5))];
+            let span = if rng.chance(1, 6) { 30 } else { 9 };
+            let nops = 1 + rng.below(span) as usize;
+            let mut ops: Vec<String> = Vec::new();
+            let mut panics = 0usize;
+            let mut jobs = 0usize;
+            let mut has_err = false;
+            let mut queued_burst = false;
+            let mut any_burst = false;
+            // in panic cases: aim for fewer than `size`, exactly `size`, or more than `size` panics
+            let target = if clean { 0 } else { [1, size.saturating_sub(1).max(1), size, size + 1 + rng.below(3) as usize][rng.below(4) as usize] };
+            for j in 0..nops {
+                let remaining = nops - j;
+                let pick = |rng: &mut Rng, panics: &mut usize| -> &'static str {
+                    if clean {
+                        return k2[rng.below(2) as usize];
+                    }
+                    let need = target.saturating_sub(*panics);
+                    if need > 0 && (need >= remaining || rng.chance(1, 2)) {
+                        *panics += 1;
+                        return "panic";
+                    }
+                    let k = k3[rng.below(3) as usize];
+                    if k == "panic" {
+                        if *panics >= target {
+                            return "ok";
+                        }
+                        *panics += 1;
+                    }
+                    k
+                };
+                if rng.chance(1, 4) {
+                    let span = if rng.chance(1, 5) { 24 } else { 2 * size as u64 + 2 };
+                    let len = 1 + rng.below(span) as usize;
+                    let ks: Vec<&str> = (0..len).map(|_| pick(rng, &mut panics)).collect();
+                    has_err |= ks.contains(&"err");
+                    queued_burst |= len > size;
+                    any_burst = true;
+                    jobs += len;
+                    ops.push(format!("burst:{}", ks.join(",")));
+                } else {
+                    let k = pick(rng, &mut panics);
+                    has_err |= k == "err";
+                    jobs += 1;
+                    ops.push(k.to_string());
+                }
+            }
+            if panics > 0 {
+                tags.push("panic".into());
+                tags.push(if panics < size { "panics<size" } else if panics == size { "panics=size" } else { "panics>size" }.into());
+            } else {
+                tags.push("clean".into());
+            }
+            if has_err {
+                tags.push("err".into());
+            }
+            if any_burst {
+                tags.push("burst".into());
+            }
+            if queued_burst {
+                tags.push("burst>size".into());
+            }
+            tags.push(format!("jobs{}", if jobs <= 4 { "1-4" } else if jobs <= 16 { "5-16" } else { "17+" }));
+            if has_err || panics > 0 || queued_burst {
+                tags.push("nt".into());
+            }
+            let line = format!("seq {} | {}", size, ops.join(" ; "));
+            cases.push(Case { line, tags });
+        }
+        // malformed lines: both sides must say bad-op
+        for l in ["seq 0 | ok", "seq 2 | okk", "seq | ok", "seq 2 ok", "seq 2 | burst:ok,,ok", "seq 17 | ok"] {
+            cases.push(Case::new(l.to_string(), &["malformed"]));
+        }
+        cases
+    }
+
+    fn timeout_ms(&self) -> u64 {
+        60_000
     }
 }
 
